@@ -904,6 +904,18 @@ func (ctx *RenderContext) EvaluateExpression(node Node) (interface{}, error) {
 				}
 			}
 
+			// _self.name(): a macro of the current template goes before a function of
+			// the same name, exactly as for the direct call name()
+			if self, ok := n.moduleExpr.(*VariableNode); ok && self.name == "_self" {
+				if macro, ok := ctx.GetMacro(n.name); ok {
+					if macroNode, ok := macro.(*MacroNode); ok {
+						return func(w io.Writer) error {
+							return macroNode.CallMacro(w, ctx, args...)
+						}, nil
+					}
+				}
+			}
+
 			// Fallback - try calling it like a regular function
 			if IsDebugEnabled() && debugger.level >= DebugVerbose {
 				LogVerbose("Fallback - calling '%s' as a regular function", n.name)
